@@ -363,9 +363,12 @@ func executeC20(scn *Scenario) *RunResult {
 			res.Skipped = "stream_does_not_load"
 			return res
 		}
-		recordSoloSites = scn.Strat.Kind == "sweep" && !scn.Strat.Resolved && c.Kind != "dualload"
+		recordSoloSites = scn.Strat.Kind != "replay" && !scn.Strat.Resolved && c.Kind != "dualload"
 		refs, total := soloRefs(twin, c.Readers)
 		recordSoloSites = false
+		if c.Kind != "dualload" {
+			adaptToSync(&scn.Strat, c.Readers, refs)
+		}
 		resolveSweep(&scn.Strat, c.Readers, refs)
 		refBytes, _ := safeMarshal(twin)
 		other := priorStreamFor2(enc)
